@@ -703,6 +703,10 @@ func TestC06_Handshakes(t *testing.T) {
 		c := drawCase(t)
 		want, why, wantSuite, wantVers := model(c)
 		ccfg, scfg := build(c, fmt.Sprint(n))
+		if n%4 == 0 {
+			// every fourth case: randomness sources that return short reads (1..7 bytes per call)
+			ccfg.Rand, scfg.Rand = tlsx.ShortRand{R: ccfg.Rand, N: 1 + n%7}, tlsx.ShortRand{R: scfg.Rand, N: 1 + (n/4)%7}
+		}
 		csend, ssend := payload(c.CSend, 'c'), payload(c.SSend, 's')
 		cl := []string{"mode:" + c.ServerMode, "client:" + c.ClientKind, fmt.Sprintf("auth:%d", c.ClientAuth), "clientcert:" + c.ClientCert, "certsource:" + c.CertSource, "srvcert:" + c.SrvCert}
 		if c.CSend > 16384 || c.SSend > 16384 {
